@@ -75,6 +75,12 @@ func main() {
 	cases(r, "b32/bytes4", r.N(1024, 65536), ev.Opt{HangViolation: true, MaxCaseSeconds: 60}, bytes4Case)
 	cases(r, "id/gen", r.N(3000, 60000), ev.Opt{HangViolation: true, MaxCaseSeconds: 60, AlwaysLog: true}, idCase)
 	cases(r, "str/gen", r.N(8000, 250000), ev.Opt{HangViolation: true, MaxCaseSeconds: 60}, strCase)
+	// the same workload on parallel workers under the race detector: package-level state shared
+	// between instances that no goroutine shares is reported from the happens-before relation,
+	// whether or not the accesses collide in this run (and however loaded the machine is)
+	r.CasesProc("str/gen/race-parallel", r.N(400, 10000), ev.Opt{Bin: "race", Procs: 2, Workers: 8, AlwaysLog: true, HangViolation: true, MaxCaseSeconds: 120}, strCase)
+	r.CasesProc("b32/roundtrip/race-parallel", r.N(100, 3000), ev.Opt{Bin: "race", Procs: 2, Workers: 8, AlwaysLog: true, HangViolation: true, MaxCaseSeconds: 120}, roundtripCase)
+	r.CasesProc("count/gen/race-parallel", r.N(300, 8000), ev.Opt{Bin: "race", Procs: 2, Workers: 8, AlwaysLog: true, HangViolation: true, MaxCaseSeconds: 120}, countCase)
 	cases(r, "count/gen", r.N(5000, 200000), ev.Opt{HangViolation: true, MaxCaseSeconds: 60}, countCase)
 	cases(r, "count/wide", r.N(5000, 200000), ev.Opt{HangViolation: true, MaxCaseSeconds: 60}, countWideCase)
 	cases(r, "count/pow32", r.N(60, 3000), ev.Opt{HangViolation: true, MaxCaseSeconds: 60}, countPow32Case)
